@@ -13,8 +13,11 @@ LIMITED = ("take", "skiptake", "sorttake", "mergetake")
 
 def base_record(kind, policy="ignore", mode="plain", only_obj=False, files=None, stdin=b"", valid=True):
     m = mode if mode in ("plain", "merge", "ctx") else ("merge" if mode in ("sort", "group", "sorttake", "mergetake") else "plain")
+    # the Run machine has the --skip / --take counters in front of its three shapes: these runs are followed exactly too
+    skip, take = {"take": (0, 2), "skiptake": (1, 1), "mergetake": (0, 3)}.get(mode, (0, -1))
     return {"kind": kind, "valid": valid, "policy": policy, "mode": m, "onlyObj": only_obj, "files": [list(f) for f in (files or [])], "stdin": list(stdin),
-            "rfault": dict(NORF), "wfault": -1, "exact": mode in ("plain", "merge") and policy != "stdout",
+            "skip": skip, "take": take,
+            "rfault": dict(NORF), "wfault": -1, "exact": mode in ("plain", "merge", "take", "skiptake", "mergetake") and policy != "stdout",
             "_blobs": [bytes(stdin)] + [bytes(f) for f in (files or [])]}
 
 
